@@ -800,7 +800,9 @@ def run(out):
     out.sample({'component': COMP, 'case': enc_case('echo', small[0], [0, 0, 0, 1, 1, 1, 1, 2, 2, 2])})
     cases = [enc_case(k, small[i % len(small)], [rng.randrange(len(small[i % len(small)])) for _ in range(40)]) for i, k in enumerate(['echo', 'device', 'ioport'] * 10)]
     mixcases = [enc_mix_case(pr, [rng.randrange(len(pr)) for _ in range(60)]) for pr in multi_progs if not any(op[0] in ('msend', 'mrecv') for p in pr for op in p)]
-    core.kernel_crosscheck(out, [(COMP, c) for c in cases] + [(COMP_MIX, c) for c in mixcases[:12]], 'C10')
+    helpercases = [enc_helper_case(pr, [rng.randrange(len(pr)) for _ in range(80)]) for pr in multi_progs
+                   if any(op[0] in ('msend', 'mrecv') for p in pr for op in p) and not any(op[0] in ('recv', 'iterp') and op[-1] == 0 for p in pr for op in p)]
+    core.kernel_crosscheck(out, [(COMP, c) for c in cases] + [(COMP_MIX, c) for c in mixcases[:12]] + [(COMP_HELPERS, c) for c in helpercases[:6]], 'C10')
     out.assumptions += ['CPython runs one bytecode of one thread at a time (GIL) and the methods of collections.deque and threading.RLock are atomic; what a thread does between two '
                         'accesses to the lock, the deque, the device or sleep() touches nothing shared - so interleaving at those accesses covers every interleaving',
                         'the scheduler replaces the port\'s RLock, deque and sleep by stand-ins with the same behaviour plus a yield point; DummyLock is left as it is',
